@@ -110,6 +110,12 @@ def g_functional_form():
         G = model_class(name)(chems)
         x = xs(E, len(chems), zeros=True)
         g1 = G(C.array(E, x), T)
+        # optionally the other public entry point of the model object in between: evaluating a model must leave
+        # the model as it was (the parameter tables are arrays that are scaled by T while evaluating)
+        if E.choice(2, 'activity_coefficients-called-in-between'):
+            nz = [v for v in x if isinstance(v, core.SymNum) or v != 0.0]
+            if len(nz) == len(x) and hasattr(G, 'activity_coefficients'):
+                G.activity_coefficients(C.array(E, x), T)
         g2 = G.f(C.array(E, x), T, *G.args)
         g1 = list(g1) if np.ndim(g1) else [g1] * len(chems)
         g2 = list(g2) if np.ndim(g2) else [g2] * len(chems)
